@@ -49,6 +49,8 @@ func checkC05(r *Run) propMeta {
 	checkPackageState(r, cg, reach)
 	checkInputsUnchanged(r, cg)
 	checkSentinelIndexes(r, cg, reach)
+	checkCountedLastElement(r, cg, reach)
+	checkValueContainersUnwritten(r, cg, reach)
 	r.Floor("C05-R1-map-order", 12)
 	return meta
 }
